@@ -60,6 +60,11 @@ type Hub struct {
 	// Shutdown was invoked, no new connections should be initiated anymore
 	isShutdown bool
 
+	// counts the pairing state notifications sent synchronously per SKI: a delayed
+	// notification of an older state is dropped once a newer state has been reported
+	pairingNotifications map[string]uint64
+	muxPairingNotify     sync.Mutex
+
 	muxCon        sync.Mutex
 	muxConSetup   sync.Mutex // the double connection check and the registration of a new connection have to be one step
 	muxConAttempt sync.Mutex
